@@ -112,6 +112,10 @@ func BuildFieldToProperty(fieldList []*ast.Field) []CodeProperty {
 	for _, field := range fieldList {
 		property := BuildPropertyField(getFieldName(field), field)
 		properties = append(properties, *property)
+		// "a, b T" declares one parameter / field per name
+		for i := 1; i < len(field.Names); i++ {
+			properties = append(properties, *BuildPropertyField(field.Names[i].Name, field))
+		}
 	}
 	return properties
 }
